@@ -44,7 +44,7 @@ type Interp struct {
 	curProp string
 	curIns  ssa.Instruction
 	urlQueries map[*Value]*Map
-	renderInts, renderJSON bool
+	renderInts, renderJSON, renderQuote bool
 }
 
 // fnInfo numbers the SSA values of a function so that frames can use a slice.
